@@ -58,6 +58,7 @@ struct RoundSpec {
   bool extra_emitter;  // a second, idle emitter is attached as well
   bool detach_after;
   uint32_t nfuncs;     // compiler-virt: number of functions
+  int dangling;        // 0 none; 1..7: one-shot state (options / extra register / inline comment) is set after the round and never consumed
 };
 
 RoundSpec decode(const Op& op) {
@@ -70,6 +71,7 @@ RoundSpec decode(const Op& op) {
   s.logger = f & 1; s.validate = f & 2; s.mode = int((f >> 2) & 3); if (s.mode == 3) s.mode = 0;
   s.extra_emitter = f & 16; s.detach_after = f & 32;
   s.nfuncs = uint32_t(1 + ((f >> 8) & 3));
+  s.dangling = int((f >> 16) & 7);
   if (s.mode == 2 && s.emitter_kind != kAsm) s.mode = 0;
   return s;
 }
@@ -268,6 +270,14 @@ void execute_rounds(const Plan& plan) {
       std::vector<uint32_t> errs_recycled;
       uint64_t faults_before = sim::run_faults_fired_total();
       bool completed = generate(s, code, e, o.eh, errs_recycled, true);
+      if (s.dangling) {
+        // the user set up one-shot state for an instruction that never came; recycling must drop it
+        static const InstOptions kOpts[] = {InstOptions::kX86_Lock, InstOptions::kX86_Rep, InstOptions::kLongForm, InstOptions::kX86_ModMR, InstOptions::kX86_Vex3, InstOptions::kTaken, InstOptions::kShortForm};
+        if (s.dangling & 1) e.set_inst_options(kOpts[(s.prog_seed >> 7) % 7]);
+        if (s.dangling & 2) e.set_extra_reg(s.target == gen::Target::kA64 ? Reg(a64::x(3)) : Reg(x86::k(uint32_t(1 + (s.prog_seed >> 11) % 7))));
+        if (s.dangling & 4) e.set_inline_comment("left-over comment");
+        sim::count("c16.probe.dangling_one_shot_state");
+      }
       // Logging is best effort: a log line whose formatting ran out of memory is dropped, the code is unaffected.
       bool log_comparable = sim::run_faults_fired_total() == faults_before;
       sim::logf("  completed=%d calls=%zu", int(completed), errs_recycled.size());
@@ -426,6 +436,7 @@ Plan generate_rounds_with(uint64_t seed, bool thorough, bool faults) {
     if (!r.chance(1, 3)) f &= ~uint64_t(12);        // most rounds complete
     f |= uint64_t(r.below(4)) << 8;                 // nfuncs
     f |= uint64_t(r.below(kRecycleCount)) << 12;    // recycle action
+    if (r.chance(1, 4)) f |= uint64_t(1 + r.below(7)) << 16;   // one-shot state left pending when the round ends
     op.a[3] = int64_t(f);
     if (faults && r.chance(1, 3)) {
       op.faults.push_back(sim::Fault{sim::kFaultArena, uint32_t(r.below(r.chance(1, 2) ? 40 : 400)), 0});
